@@ -293,9 +293,11 @@ func (in *rotInst) Apply(op string) (string, string) {
 	return "", "unknown op"
 }
 
+// Key: the filter's entire private state (so that an implementation-side cache
+// or counter distinguishes histories) plus the model's material in force.
 func (in *rotInst) Key() string {
 	kid, _ := in.cur.w.KeyId(context.Background())
-	return fmt.Sprintf("%s|%s|%s", kid, in.cur.salt, in.cur.info)
+	return vrt.Dump(in.f, nil) + fmt.Sprintf(" || %s|%s|%s", kid, in.cur.salt, in.cur.info)
 }
 
 var rotHarness = &seqmc.Harness{
